@@ -89,6 +89,12 @@ fn exec<const B: usize, const L: usize>(m: &mut Mon, op: &str, a: &[Arg]) {
             if let Some(v) = m.must(|| &x * &y) {
                 m.eq_uint("op*.rr", &v, &w);
             }
+            if a[0].u() == a[1].u() {
+                // both operands are the very same object
+                if let Some(v) = m.must(|| &x * &x) {
+                    m.eq_uint("op*.rr.alias", &v, &w);
+                }
+            }
             if let Some(v) = m.must(|| {
                 let mut z = x;
                 z *= y;
@@ -146,6 +152,15 @@ fn exec<const B: usize, const L: usize>(m: &mut Mon, op: &str, a: &[Arg]) {
             if let Some(v) = m.must(|| xs.iter().product::<Uint<B, L>>()) {
                 m.eq_uint("product.refs", &v, &w);
             }
+            // the same factors through iterators of other kinds (no / partial size_hint, adaptors, by_ref)
+            macro_rules! each {
+                ($label:literal, $e:expr) => {
+                    if let Some(v) = m.must(|| $e) {
+                        m.eq_uint(concat!("product.", $label), &v, &w);
+                    }
+                };
+            }
+            vmon::iter_kinds!(xs, Uint<B, L>, product; each);
         }
         _ => panic!("harness: unknown op {op}"),
     }
